@@ -127,11 +127,12 @@ def g3_raising():
 # G4: specialised instructions / methods on runtime and constant values
 
 VALS = ["1", "2", "2.0", "-0.0", "0", "'s'", "''", "None", "True", "False", "[1]", "[]", "(1,)", "{'a': 1}",
-        "1 << 70", "struct(a = 1)", "'2'", "(2,)", "[2]", "3.5", "range(3)", "-2"]
+        "1 << 70", "struct(a = 1)", "'2'", "(2,)", "[2]", "3.5", "range(3)", "-2", "()", "(1, 2)", "((1,),)", "((1, 2),)", "([1],)", "((),)"]
 SPEC_EXPRS = [
     "v == 2", "2 == v", "v != 2", "v == 's'", "'s' == v", "v != 's'", "v == None", "v == True", "v == 2.0", "v == 0",
     "v == -2", "v == ''", "v == []", "v == (2,)", "type(v) == 'int'", "type(v) == type(1)", "type(v) != 'string'",
-    "'%s' % v", "'a%sb' % v", "'%s%s' % (v, v)", "'%r' % v", "'%d' % v", "'{}'.format(v)", "'a{}b{}'.format(v, 1)",
+    "'%s' % v", "'a%sb' % v", "'%s%s' % (v, v)", "'<%s>' % (v,)", "'%s' % ((v,),)", "'%s %s' % (v, (v,))", "'<%s>' % [v]", "'%s' % {'k': v}",
+    "'<{}>'.format((v,))", "'%d' % (v,)", "'%s' % (v, )[0:1]", "'%r' % v", "'%d' % v", "'{}'.format(v)", "'a{}b{}'.format(v, 1)",
     "'{0}{0}'.format(v)", "'{x}'.format(x = v)", "str(v)", "repr(v)", "len(v)", "v in [1, 's']", "v in (2,)",
     "v in 's2'", "v in {2: 1}", "2 in v", "v + v", "v * 2", "-v", "+v", "~v", "not v", "bool(v)", "[v][0]",
     "(v, v)[1]", "{'k': v}['k']", "v if v else 0", "isinstance(v, int)", "isinstance(v, str)", "v.a", "v[0]", "v[:1]",
